@@ -10,12 +10,13 @@ LEVEL = "model_checking"
 ENCODED = ["twisted.internet.defer:DeferredQueue.put", "twisted.internet.defer:DeferredQueue.get",
            "twisted.internet.defer:DeferredQueue._cancelGet", "twisted.internet.defer:Deferred.cancel",
            "twisted.internet.defer:Deferred.callback"]
+# step_reentrant: put()/get()/cancel issued from inside the callback of the get that put() is serving
 BOUNDS = {"quick": {"k": 3, "hist": 4}, "thorough": {"k": 4, "hist": 6}}
 B = {}
 BOUNDS_TEXT = ("inductive steps: size/backlog any integer >= 0 or None, object values any int, <= k pending "
                "objects, <= k waiting gets; histories from the empty queue of length <= hist with "
                "size, backlog in {None,0,1,2}")
-OUTSIDE = ["more than k pending objects / waiting gets in the inductive pre-state (the code treats list "
+OUTSIDE = ["re-entrant use deeper than one level (one operation from inside the served get's callback is covered)", "more than k pending objects / waiting gets in the inductive pre-state (the code treats list "
            "lengths uniformly; the representation invariant is checked to be inductive)",
            "non-integer queue elements"]
 ASSUMPTIONS = ["representation invariant assumed for inductive steps: waiting != [] => pending == []; "
@@ -154,6 +155,62 @@ def step_cancel_sz0(backlog: Optional[int], which: int, obj: int) -> bool:
     return False
 
 
+def step_reentrant(size: Optional[int], backlog: Optional[int], nwait: int, what: int, obj: int) -> bool:
+    """
+    pre: 1 <= nwait <= B['k'] and 0 <= what <= 2
+    pre: size is None or size >= 0
+    pre: backlog is None or (backlog >= 1 and nwait <= backlog)
+    post: _
+    """
+    # The oldest waiting get is served by put(); from inside ITS callback the application uses the
+    # same queue again: what == 0: put(obj + 1); 1: get(); 2: cancel the next-oldest waiter.
+    # At that moment the served get is no longer pending: it must not be served again, must not
+    # count against the backlog, and must not be the target of the re-entrant put.
+    q, ws, got = _mk(size, backlog, [], nwait)
+    inner = []
+
+    def reenter(v):
+        try:
+            if what == 0:
+                q.put(obj + 1)
+                inner.append("put-ok")
+            elif what == 1:
+                d2 = q.get()
+                d2.addCallback(lambda x: got.append(("inner", x)))
+                inner.append("get-ok")
+            else:
+                if nwait >= 2:
+                    ws[1].cancel()
+                inner.append("cancel-ok")
+        except QueueOverflow:
+            inner.append("overflow")
+        except QueueUnderflow:
+            inner.append("underflow")
+        return v
+    ws[0].addCallback(reenter)
+    q.put(obj)
+    cover()
+    if not _inv(q):
+        return False
+    if got[:1] != [(0, obj)]:
+        return False
+    if what == 0:
+        # re-entrant put: goes to the next waiter, else is queued (or overflows when size == 0)
+        if nwait >= 2:
+            return inner == ["put-ok"] and got == [(0, obj), (1, obj + 1)] and q.pending == [] and len(q.waiting) == nwait - 2
+        if size is not None and size == 0:
+            return inner == ["overflow"] and got == [(0, obj)] and q.pending == [] and q.waiting == []
+        return inner == ["put-ok"] and got == [(0, obj)] and q.pending == [obj + 1] and q.waiting == []
+    if what == 1:
+        # re-entrant get: nwait - 1 gets are pending at that moment
+        if backlog is not None and nwait - 1 >= backlog:
+            return inner == ["underflow"] and got == [(0, obj)] and len(q.waiting) == nwait - 1
+        return inner == ["get-ok"] and got == [(0, obj)] and len(q.waiting) == nwait and q.pending == []
+    if nwait >= 2:
+        return inner == ["cancel-ok"] and got == [(0, obj), (1, "cancelled")] and q.waiting == ws[2:]
+    return inner == ["cancel-ok"] and got == [(0, obj)] and q.waiting == []
+
+
 def _lim(code):
     return None if code == 0 else code - 1  # 0->None, 1->0, 2->1, 3->2
 
@@ -241,6 +298,7 @@ HARNESSES = [
     H(step_get, timeout={"quick": 40, "thorough": 300}),
     H(step_cancel, timeout={"quick": 40, "thorough": 300}),
     H(step_cancel_sz0, timeout={"quick": 20, "thorough": 60}),
+    H(step_reentrant, shards=[("what == 0",), ("what == 1",), ("what == 2",)], timeout={"quick": 40, "thorough": 300}),
     H(history, shards=lambda tier: [("szc == %d" % s, "blc == %d" % b) for s in range(4) for b in range(4)],
       timeout={"quick": 60, "thorough": 900}),
 ]
